@@ -66,11 +66,15 @@ func report(prop, tier string, seed int, verif, repo string, cs *ContractSet, l 
 			fails = append(fails, fail{fr, o})
 			continue
 		}
-		for t := range fr.Gen.trustedUsed {
-			trusted[t] = true
-		}
-		for t := range fr.Gen.unmodelled {
-			unmodelled[fr.Short+": "+t] = true
+		if fr.Gen != nil {
+			for t := range fr.Gen.trustedUsed {
+				trusted[t] = true
+			}
+			for t := range fr.Gen.unmodelled {
+				unmodelled[fr.Short+": "+t] = true
+			}
+		} else {
+			trusted["Lean 4 kernel (induction schemas lean/Schemas.lean, re-checked by `lean` on every run)"] = true
 		}
 		for i := range fr.Obls {
 			o := &fr.Obls[i]
